@@ -66,10 +66,15 @@ def oracle_steps(sc, obs):
                 break
     tfmax = max(s['tf'] for s in obs['segs'])
     if st and st[-1] > tfmax:
-        bad.append(('step-past-tf', 'a stored stamp %r lies beyond the end time %r' % (st[-1], tfmax)))
+        if st[-1] - tfmax <= 1e-12 * max(1.0, abs(tfmax)):
+            bad.append(('end-time-rounding', 'floating point: the last step t + (tf - t) lands one ulp beyond tf (%r > %r); the run then does not '
+                        'report success because t != tf' % (st[-1], tfmax)))
+        else:
+            bad.append(('step-past-tf', 'a stored stamp %r lies beyond the end time %r' % (st[-1], tfmax)))
     pos = 0
     for sg in obs['segs']:
-        if sg['nstamps'] and not sg['busted'] and sg['t'] > max(sg['tf'], st[0] if st else 0) and sg['used'] > 0:
+        if sg['nstamps'] and not sg['busted'] and sg['t'] > max(sg['tf'], st[0] if st else 0) and sg['used'] > 0 \
+                and sg['t'] - sg['tf'] > 1e-12 * max(1.0, abs(sg['tf'])):
             bad.append(('time-past-tf', 'time %r beyond tf %r' % (sg['t'], sg['tf'])))
     return bad
 
